@@ -581,12 +581,14 @@ class Ev:
                 return sub.ev(e.body)
             fn._ev_closure = True
             return fn
-        if isinstance(e, (ast.GeneratorExp, ast.ListComp)):
+        if isinstance(e, ast.GeneratorExp):
+            # a generator expression is an iterator: its outermost iterable is evaluated now, its elements when they are
+            # asked for (`any(unite(i) for i in ...)` stops at the first true element, and an element may have effects)
+            return self._gen(e, 0, self.ev(e.generators[0].iter))
+        if isinstance(e, ast.ListComp):
             out = []
             self._comp(e, 0, out)
-            # a generator expression is an iterator (next() works, len() does not); it is evaluated eagerly here,
-            # which is the same for the side-effect-free element expressions the interpreter accepts
-            return iter(out) if isinstance(e, ast.GeneratorExp) else out
+            return out
         if isinstance(e, ast.SetComp):
             out = []
             self._comp(e, 0, out)
@@ -666,6 +668,24 @@ class Ev:
                     return getattr(recv, e.func.attr)(*args, **kwargs)
             raise Undecided("call " + U(e.func))
         raise Undecided(U(e)[:50])
+
+    def _gen(self, e, gi, first=None):
+        if gi == len(e.generators):
+            yield self.ev(e.elt)
+            return
+        g = e.generators[gi]
+        seq = first if gi == 0 else self.ev(g.iter)
+        if type(seq) is list:
+            def by_position(lst=seq):
+                i = 0
+                while i < len(lst):
+                    yield lst[i]
+                    i += 1
+            seq = by_position()
+        for x in seq:
+            self.assign(g.target, x)
+            if all(self.ev(c) for c in g.ifs):
+                yield from self._gen(e, gi + 1)
 
     def _comp(self, e, gi, out):
         if gi == len(e.generators):
